@@ -141,6 +141,16 @@ def run(M, rep, tier, only=None):
                 why = "each task must be called exactly once per iteration"
             elif isinstance(it, ast.Call):
                 why = "the task list is iterated as %s, not in the order given" % ast.unparse(it)
+        for n in loops:
+            for t_ in ast.walk(n):
+                if isinstance(t_, ast.Try) and any(isinstance(c, ast.Call) and isinstance(c.func, ast.Name) and isinstance(n.target, ast.Name)
+                                                   and c.func.id == n.target.id for b in t_.body for c in ast.walk(b)):
+                    for h in t_.handlers:
+                        reraises = bool(h.body) and isinstance(h.body[-1], ast.Raise)
+                        if not reraises:
+                            ok = False
+                            why = ("a failing task is caught and the loop goes on: the version bump still runs after a conversion step "
+                                   "failed, so the half-converted file claims to be current")
         rep.check(R2, "process_tasks", ok, why, site="%s:%d" % (pt.file, pt.node.lineno))
 
     # ---------------------------------------------------------------- R3 / R4 / R5 / R6 on the closures
